@@ -20,6 +20,12 @@ CHECKS = {
  "C08": dict(technique="TLA+ P-spec ShmBufAbs (bounded FIFO) refined by I-spec ShmBufRing (positions, modulus, split copies) proved by TLC for capacities 1..4; every edge of the ring graph replayed on a real PShmBuffer through several handles; sequential traces validated by TLC (ShmBufTrace); concurrent producer/consumer histories (threads and processes) checked for linearizability by TLC (ShmBufLin)",
              text="TLC proves the ring algorithm refines the FIFO for every operation sequence, length 0..cap+1 and content over capacities 1..4, and each of those transitions is executed on the real buffer (ring positions compared through an independent PShm handle); random histories for capacities up to 300 with handles opened with equal, larger and zero size arguments; concurrent histories from 1-4 producers x 1-4 consumers in threads and in forked processes must have a linearization as one FIFO.",
              design_ref="3 C08", note="Trusted: " + TB + "; one process-shared atomic sequence number orders call/ret events; the >INT_MAX capacity probe of DESIGN.md is not built."),
+ "C01": dict(technique="TLA+ P-spec LockAbs (single owner, ghost data cell) refined by I-spec SpinCAS (CAS loop / store 0), proved by TLC; call/ret/critical-section histories of real threads on PMutex and PSpinLock in the c11, sync and sim builds checked for linearizability by TLC (LockLin, StrictTry)",
+             text="TLC proves exclusion and the trylock rule for every interleaving of the CAS loop (3 threads x 2 rounds) and validates tens of thousands of recorded call/return/critical-section events per build: a history is accepted only if some linearization has a single owner at every instant, every critical-section read returns the previous holder's write, and a failed trylock coincides with a held or contended lock.",
+             design_ref="3 C01", note="Trusted: " + TB + "; events ordered by one atomic sequence number taken before a call and after its return; x86-64 cannot exhibit weakened memory orders."),
+ "C02": dict(technique="TLA+ I-spec RWLockGeneral (one action per critical section of prwlock-general.c, chosen-waiter signal, spurious wake-ups) refines P-spec LockAbs, deadlock-free and terminating under weak fairness (TLC); every edge of the bounded graph replayed on the unmodified prwlock-general.c under a deterministic virtual scheduler with state and enabled-thread comparison; seeded random virtual schedules with deadlock detection; real-thread histories of both models checked for linearizability by TLC (LockLin)",
+             text="For the portable model the schedule quantifier is discharged exhaustively for the bounded configurations: TLC explores all interleavings incl. spurious wake-ups and the harness drives the real C code through every transition, comparing counters, wait sets and thread states; lost wake-ups show up as a deadlock of the virtual threads. The native model and the general model under real pthreads are validated through recorded histories.",
+             design_ref="3 C02", note="Trusted: " + TB + "; the virtual p_mutex/p_cond_variable implement the CondVar semantics of C03; ucontext coroutines."),
 }
 NA = {
  "C17": "pure encode/decode fidelity against the platform's inet_pton/inet_ntop over all addresses: no state, transitions or histories for a TLA+ specification to constrain (DESIGN.md section 5)",
